@@ -216,55 +216,105 @@ package main
 //@ uninterp envI(key string) int
 //@ uninterp envS(key string) string
 
-// getEnv: VFLOW_<KEY> (upper-cased yaml key, '-' -> '_') replaces the current value (reflection: trusted, bounded check in the thorough tier)
+// the environment source: setting <key> is provided by the variable VFLOW_<KEY> (upper case, '-' -> '_') when that
+// variable is set and not empty; integer and boolean settings are parsed with strconv.Atoi / strconv.ParseBool
+//@ axiom local.env.verbose: envHas("verbose") == (getenvU("VFLOW_VERBOSE") != "") && envB("verbose") == parseBoolU(getenvU("VFLOW_VERBOSE"))
+//@ axiom local.env.log-file: envHas("log-file") == (getenvU("VFLOW_LOG_FILE") != "") && envS("log-file") == getenvU("VFLOW_LOG_FILE")
+//@ axiom local.env.pid-file: envHas("pid-file") == (getenvU("VFLOW_PID_FILE") != "") && envS("pid-file") == getenvU("VFLOW_PID_FILE")
+//@ axiom local.env.cpu-cap: envHas("cpu-cap") == (getenvU("VFLOW_CPU_CAP") != "") && envS("cpu-cap") == getenvU("VFLOW_CPU_CAP")
+//@ axiom local.env.dynamic-workers: envHas("dynamic-workers") == (getenvU("VFLOW_DYNAMIC_WORKERS") != "") && envB("dynamic-workers") == parseBoolU(getenvU("VFLOW_DYNAMIC_WORKERS"))
+//@ axiom local.env.stats-enabled: envHas("stats-enabled") == (getenvU("VFLOW_STATS_ENABLED") != "") && envB("stats-enabled") == parseBoolU(getenvU("VFLOW_STATS_ENABLED"))
+//@ axiom local.env.stats-format: envHas("stats-format") == (getenvU("VFLOW_STATS_FORMAT") != "") && envS("stats-format") == getenvU("VFLOW_STATS_FORMAT")
+//@ axiom local.env.stats-http-addr: envHas("stats-http-addr") == (getenvU("VFLOW_STATS_HTTP_ADDR") != "") && envS("stats-http-addr") == getenvU("VFLOW_STATS_HTTP_ADDR")
+//@ axiom local.env.stats-http-port: envHas("stats-http-port") == (getenvU("VFLOW_STATS_HTTP_PORT") != "") && envS("stats-http-port") == getenvU("VFLOW_STATS_HTTP_PORT")
+//@ axiom local.env.sflow-enabled: envHas("sflow-enabled") == (getenvU("VFLOW_SFLOW_ENABLED") != "") && envB("sflow-enabled") == parseBoolU(getenvU("VFLOW_SFLOW_ENABLED"))
+//@ axiom local.env.sflow-port: envHas("sflow-port") == (getenvU("VFLOW_SFLOW_PORT") != "") && envI("sflow-port") == atoiU(getenvU("VFLOW_SFLOW_PORT"))
+//@ axiom local.env.sflow-addr: envHas("sflow-addr") == (getenvU("VFLOW_SFLOW_ADDR") != "") && envS("sflow-addr") == getenvU("VFLOW_SFLOW_ADDR")
+//@ axiom local.env.sflow-udp-size: envHas("sflow-udp-size") == (getenvU("VFLOW_SFLOW_UDP_SIZE") != "") && envI("sflow-udp-size") == atoiU(getenvU("VFLOW_SFLOW_UDP_SIZE"))
+//@ axiom local.env.sflow-workers: envHas("sflow-workers") == (getenvU("VFLOW_SFLOW_WORKERS") != "") && envI("sflow-workers") == atoiU(getenvU("VFLOW_SFLOW_WORKERS"))
+//@ axiom local.env.sflow-topic: envHas("sflow-topic") == (getenvU("VFLOW_SFLOW_TOPIC") != "") && envS("sflow-topic") == getenvU("VFLOW_SFLOW_TOPIC")
+//@ axiom local.env.sflow-mirror-addr: envHas("sflow-mirror-addr") == (getenvU("VFLOW_SFLOW_MIRROR_ADDR") != "") && envS("sflow-mirror-addr") == getenvU("VFLOW_SFLOW_MIRROR_ADDR")
+//@ axiom local.env.sflow-mirror-port: envHas("sflow-mirror-port") == (getenvU("VFLOW_SFLOW_MIRROR_PORT") != "") && envI("sflow-mirror-port") == atoiU(getenvU("VFLOW_SFLOW_MIRROR_PORT"))
+//@ axiom local.env.sflow-mirror-workers: envHas("sflow-mirror-workers") == (getenvU("VFLOW_SFLOW_MIRROR_WORKERS") != "") && envI("sflow-mirror-workers") == atoiU(getenvU("VFLOW_SFLOW_MIRROR_WORKERS"))
+//@ axiom local.env.ipfix-enabled: envHas("ipfix-enabled") == (getenvU("VFLOW_IPFIX_ENABLED") != "") && envB("ipfix-enabled") == parseBoolU(getenvU("VFLOW_IPFIX_ENABLED"))
+//@ axiom local.env.ipfix-rpc-enabled: envHas("ipfix-rpc-enabled") == (getenvU("VFLOW_IPFIX_RPC_ENABLED") != "") && envB("ipfix-rpc-enabled") == parseBoolU(getenvU("VFLOW_IPFIX_RPC_ENABLED"))
+//@ axiom local.env.ipfix-port: envHas("ipfix-port") == (getenvU("VFLOW_IPFIX_PORT") != "") && envI("ipfix-port") == atoiU(getenvU("VFLOW_IPFIX_PORT"))
+//@ axiom local.env.ipfix-addr: envHas("ipfix-addr") == (getenvU("VFLOW_IPFIX_ADDR") != "") && envS("ipfix-addr") == getenvU("VFLOW_IPFIX_ADDR")
+//@ axiom local.env.ipfix-udp-size: envHas("ipfix-udp-size") == (getenvU("VFLOW_IPFIX_UDP_SIZE") != "") && envI("ipfix-udp-size") == atoiU(getenvU("VFLOW_IPFIX_UDP_SIZE"))
+//@ axiom local.env.ipfix-workers: envHas("ipfix-workers") == (getenvU("VFLOW_IPFIX_WORKERS") != "") && envI("ipfix-workers") == atoiU(getenvU("VFLOW_IPFIX_WORKERS"))
+//@ axiom local.env.ipfix-topic: envHas("ipfix-topic") == (getenvU("VFLOW_IPFIX_TOPIC") != "") && envS("ipfix-topic") == getenvU("VFLOW_IPFIX_TOPIC")
+//@ axiom local.env.ipfix-mirror-addr: envHas("ipfix-mirror-addr") == (getenvU("VFLOW_IPFIX_MIRROR_ADDR") != "") && envS("ipfix-mirror-addr") == getenvU("VFLOW_IPFIX_MIRROR_ADDR")
+//@ axiom local.env.ipfix-mirror-port: envHas("ipfix-mirror-port") == (getenvU("VFLOW_IPFIX_MIRROR_PORT") != "") && envI("ipfix-mirror-port") == atoiU(getenvU("VFLOW_IPFIX_MIRROR_PORT"))
+//@ axiom local.env.ipfix-mirror-workers: envHas("ipfix-mirror-workers") == (getenvU("VFLOW_IPFIX_MIRROR_WORKERS") != "") && envI("ipfix-mirror-workers") == atoiU(getenvU("VFLOW_IPFIX_MIRROR_WORKERS"))
+//@ axiom local.env.ipfix-tpl-cache-file: envHas("ipfix-tpl-cache-file") == (getenvU("VFLOW_IPFIX_TPL_CACHE_FILE") != "") && envS("ipfix-tpl-cache-file") == getenvU("VFLOW_IPFIX_TPL_CACHE_FILE")
+//@ axiom local.env.netflow5-enabled: envHas("netflow5-enabled") == (getenvU("VFLOW_NETFLOW5_ENABLED") != "") && envB("netflow5-enabled") == parseBoolU(getenvU("VFLOW_NETFLOW5_ENABLED"))
+//@ axiom local.env.netflow5-port: envHas("netflow5-port") == (getenvU("VFLOW_NETFLOW5_PORT") != "") && envI("netflow5-port") == atoiU(getenvU("VFLOW_NETFLOW5_PORT"))
+//@ axiom local.env.netflow5-addr: envHas("netflow5-addr") == (getenvU("VFLOW_NETFLOW5_ADDR") != "") && envS("netflow5-addr") == getenvU("VFLOW_NETFLOW5_ADDR")
+//@ axiom local.env.netflow5-udp-size: envHas("netflow5-udp-size") == (getenvU("VFLOW_NETFLOW5_UDP_SIZE") != "") && envI("netflow5-udp-size") == atoiU(getenvU("VFLOW_NETFLOW5_UDP_SIZE"))
+//@ axiom local.env.netflow5-workers: envHas("netflow5-workers") == (getenvU("VFLOW_NETFLOW5_WORKERS") != "") && envI("netflow5-workers") == atoiU(getenvU("VFLOW_NETFLOW5_WORKERS"))
+//@ axiom local.env.netflow5-topic: envHas("netflow5-topic") == (getenvU("VFLOW_NETFLOW5_TOPIC") != "") && envS("netflow5-topic") == getenvU("VFLOW_NETFLOW5_TOPIC")
+//@ axiom local.env.netflow9-enabled: envHas("netflow9-enabled") == (getenvU("VFLOW_NETFLOW9_ENABLED") != "") && envB("netflow9-enabled") == parseBoolU(getenvU("VFLOW_NETFLOW9_ENABLED"))
+//@ axiom local.env.netflow9-port: envHas("netflow9-port") == (getenvU("VFLOW_NETFLOW9_PORT") != "") && envI("netflow9-port") == atoiU(getenvU("VFLOW_NETFLOW9_PORT"))
+//@ axiom local.env.netflow9-addr: envHas("netflow9-addr") == (getenvU("VFLOW_NETFLOW9_ADDR") != "") && envS("netflow9-addr") == getenvU("VFLOW_NETFLOW9_ADDR")
+//@ axiom local.env.netflow9-udp-size: envHas("netflow9-udp-size") == (getenvU("VFLOW_NETFLOW9_UDP_SIZE") != "") && envI("netflow9-udp-size") == atoiU(getenvU("VFLOW_NETFLOW9_UDP_SIZE"))
+//@ axiom local.env.netflow9-workers: envHas("netflow9-workers") == (getenvU("VFLOW_NETFLOW9_WORKERS") != "") && envI("netflow9-workers") == atoiU(getenvU("VFLOW_NETFLOW9_WORKERS"))
+//@ axiom local.env.netflow9-topic: envHas("netflow9-topic") == (getenvU("VFLOW_NETFLOW9_TOPIC") != "") && envS("netflow9-topic") == getenvU("VFLOW_NETFLOW9_TOPIC")
+//@ axiom local.env.netflow9-tpl-cache-file: envHas("netflow9-tpl-cache-file") == (getenvU("VFLOW_NETFLOW9_TPL_CACHE_FILE") != "") && envS("netflow9-tpl-cache-file") == getenvU("VFLOW_NETFLOW9_TPL_CACHE_FILE")
+//@ axiom local.env.producer-enabled: envHas("producer-enabled") == (getenvU("VFLOW_PRODUCER_ENABLED") != "") && envB("producer-enabled") == parseBoolU(getenvU("VFLOW_PRODUCER_ENABLED"))
+//@ axiom local.env.mq-name: envHas("mq-name") == (getenvU("VFLOW_MQ_NAME") != "") && envS("mq-name") == getenvU("VFLOW_MQ_NAME")
+//@ axiom local.env.mq-config-file: envHas("mq-config-file") == (getenvU("VFLOW_MQ_CONFIG_FILE") != "") && envS("mq-config-file") == getenvU("VFLOW_MQ_CONFIG_FILE")
+
+// getEnv: every setting provided by the environment takes the environment's value, every other setting keeps its value
+// (proved: package reflect is executed symbolically over the static type Options, the loop over its fields is unrolled)
 //@ func (*Options).getEnv
 //@   names opts r i key value ve v err v err
-//@   opt noverify reflection over the struct fields
-//@   ensures [trusted.Verbose] opts.Verbose == (envHas("verbose") ? envB("verbose") : old(opts.Verbose))
-//@   ensures [trusted.LogFile] opts.LogFile == (envHas("log-file") ? envS("log-file") : old(opts.LogFile))
-//@   ensures [trusted.PIDFile] opts.PIDFile == (envHas("pid-file") ? envS("pid-file") : old(opts.PIDFile))
-//@   ensures [trusted.CPUCap] opts.CPUCap == (envHas("cpu-cap") ? envS("cpu-cap") : old(opts.CPUCap))
-//@   ensures [trusted.DynWorkers] opts.DynWorkers == (envHas("dynamic-workers") ? envB("dynamic-workers") : old(opts.DynWorkers))
-//@   ensures [trusted.StatsEnabled] opts.StatsEnabled == (envHas("stats-enabled") ? envB("stats-enabled") : old(opts.StatsEnabled))
-//@   ensures [trusted.StatsFormat] opts.StatsFormat == (envHas("stats-format") ? envS("stats-format") : old(opts.StatsFormat))
-//@   ensures [trusted.StatsHTTPAddr] opts.StatsHTTPAddr == (envHas("stats-http-addr") ? envS("stats-http-addr") : old(opts.StatsHTTPAddr))
-//@   ensures [trusted.StatsHTTPPort] opts.StatsHTTPPort == (envHas("stats-http-port") ? envS("stats-http-port") : old(opts.StatsHTTPPort))
-//@   ensures [trusted.SFlowEnabled] opts.SFlowEnabled == (envHas("sflow-enabled") ? envB("sflow-enabled") : old(opts.SFlowEnabled))
-//@   ensures [trusted.SFlowPort] opts.SFlowPort == (envHas("sflow-port") ? envI("sflow-port") : old(opts.SFlowPort))
-//@   ensures [trusted.SFlowAddr] opts.SFlowAddr == (envHas("sflow-addr") ? envS("sflow-addr") : old(opts.SFlowAddr))
-//@   ensures [trusted.SFlowUDPSize] opts.SFlowUDPSize == (envHas("sflow-udp-size") ? envI("sflow-udp-size") : old(opts.SFlowUDPSize))
-//@   ensures [trusted.SFlowWorkers] opts.SFlowWorkers == (envHas("sflow-workers") ? envI("sflow-workers") : old(opts.SFlowWorkers))
-//@   ensures [trusted.SFlowTopic] opts.SFlowTopic == (envHas("sflow-topic") ? envS("sflow-topic") : old(opts.SFlowTopic))
-//@   ensures [trusted.SFlowMirrorAddr] opts.SFlowMirrorAddr == (envHas("sflow-mirror-addr") ? envS("sflow-mirror-addr") : old(opts.SFlowMirrorAddr))
-//@   ensures [trusted.SFlowMirrorPort] opts.SFlowMirrorPort == (envHas("sflow-mirror-port") ? envI("sflow-mirror-port") : old(opts.SFlowMirrorPort))
-//@   ensures [trusted.SFlowMirrorWorkers] opts.SFlowMirrorWorkers == (envHas("sflow-mirror-workers") ? envI("sflow-mirror-workers") : old(opts.SFlowMirrorWorkers))
-//@   ensures [trusted.IPFIXEnabled] opts.IPFIXEnabled == (envHas("ipfix-enabled") ? envB("ipfix-enabled") : old(opts.IPFIXEnabled))
-//@   ensures [trusted.IPFIXRPCEnabled] opts.IPFIXRPCEnabled == (envHas("ipfix-rpc-enabled") ? envB("ipfix-rpc-enabled") : old(opts.IPFIXRPCEnabled))
-//@   ensures [trusted.IPFIXPort] opts.IPFIXPort == (envHas("ipfix-port") ? envI("ipfix-port") : old(opts.IPFIXPort))
-//@   ensures [trusted.IPFIXAddr] opts.IPFIXAddr == (envHas("ipfix-addr") ? envS("ipfix-addr") : old(opts.IPFIXAddr))
-//@   ensures [trusted.IPFIXUDPSize] opts.IPFIXUDPSize == (envHas("ipfix-udp-size") ? envI("ipfix-udp-size") : old(opts.IPFIXUDPSize))
-//@   ensures [trusted.IPFIXWorkers] opts.IPFIXWorkers == (envHas("ipfix-workers") ? envI("ipfix-workers") : old(opts.IPFIXWorkers))
-//@   ensures [trusted.IPFIXTopic] opts.IPFIXTopic == (envHas("ipfix-topic") ? envS("ipfix-topic") : old(opts.IPFIXTopic))
-//@   ensures [trusted.IPFIXMirrorAddr] opts.IPFIXMirrorAddr == (envHas("ipfix-mirror-addr") ? envS("ipfix-mirror-addr") : old(opts.IPFIXMirrorAddr))
-//@   ensures [trusted.IPFIXMirrorPort] opts.IPFIXMirrorPort == (envHas("ipfix-mirror-port") ? envI("ipfix-mirror-port") : old(opts.IPFIXMirrorPort))
-//@   ensures [trusted.IPFIXMirrorWorkers] opts.IPFIXMirrorWorkers == (envHas("ipfix-mirror-workers") ? envI("ipfix-mirror-workers") : old(opts.IPFIXMirrorWorkers))
-//@   ensures [trusted.IPFIXTplCacheFile] opts.IPFIXTplCacheFile == (envHas("ipfix-tpl-cache-file") ? envS("ipfix-tpl-cache-file") : old(opts.IPFIXTplCacheFile))
-//@   ensures [trusted.NetflowV5Enabled] opts.NetflowV5Enabled == (envHas("netflow5-enabled") ? envB("netflow5-enabled") : old(opts.NetflowV5Enabled))
-//@   ensures [trusted.NetflowV5Port] opts.NetflowV5Port == (envHas("netflow5-port") ? envI("netflow5-port") : old(opts.NetflowV5Port))
-//@   ensures [trusted.NetflowV5Addr] opts.NetflowV5Addr == (envHas("netflow5-addr") ? envS("netflow5-addr") : old(opts.NetflowV5Addr))
-//@   ensures [trusted.NetflowV5UDPSize] opts.NetflowV5UDPSize == (envHas("netflow5-udp-size") ? envI("netflow5-udp-size") : old(opts.NetflowV5UDPSize))
-//@   ensures [trusted.NetflowV5Workers] opts.NetflowV5Workers == (envHas("netflow5-workers") ? envI("netflow5-workers") : old(opts.NetflowV5Workers))
-//@   ensures [trusted.NetflowV5Topic] opts.NetflowV5Topic == (envHas("netflow5-topic") ? envS("netflow5-topic") : old(opts.NetflowV5Topic))
-//@   ensures [trusted.NetflowV9Enabled] opts.NetflowV9Enabled == (envHas("netflow9-enabled") ? envB("netflow9-enabled") : old(opts.NetflowV9Enabled))
-//@   ensures [trusted.NetflowV9Port] opts.NetflowV9Port == (envHas("netflow9-port") ? envI("netflow9-port") : old(opts.NetflowV9Port))
-//@   ensures [trusted.NetflowV9Addr] opts.NetflowV9Addr == (envHas("netflow9-addr") ? envS("netflow9-addr") : old(opts.NetflowV9Addr))
-//@   ensures [trusted.NetflowV9UDPSize] opts.NetflowV9UDPSize == (envHas("netflow9-udp-size") ? envI("netflow9-udp-size") : old(opts.NetflowV9UDPSize))
-//@   ensures [trusted.NetflowV9Workers] opts.NetflowV9Workers == (envHas("netflow9-workers") ? envI("netflow9-workers") : old(opts.NetflowV9Workers))
-//@   ensures [trusted.NetflowV9Topic] opts.NetflowV9Topic == (envHas("netflow9-topic") ? envS("netflow9-topic") : old(opts.NetflowV9Topic))
-//@   ensures [trusted.NetflowV9TplCacheFile] opts.NetflowV9TplCacheFile == (envHas("netflow9-tpl-cache-file") ? envS("netflow9-tpl-cache-file") : old(opts.NetflowV9TplCacheFile))
-//@   ensures [trusted.ProducerEnabled] opts.ProducerEnabled == (envHas("producer-enabled") ? envB("producer-enabled") : old(opts.ProducerEnabled))
-//@   ensures [trusted.MQName] opts.MQName == (envHas("mq-name") ? envS("mq-name") : old(opts.MQName))
-//@   ensures [trusted.MQConfigFile] opts.MQConfigFile == (envHas("mq-config-file") ? envS("mq-config-file") : old(opts.MQConfigFile))
+//@   requires opts != nil
+//@   opt noreplay getEnv reads the process environment
+//@   ensures [env.Verbose] opts.Verbose == (envHas("verbose") ? envB("verbose") : old(opts.Verbose))
+//@   ensures [env.LogFile] opts.LogFile == (envHas("log-file") ? envS("log-file") : old(opts.LogFile))
+//@   ensures [env.PIDFile] opts.PIDFile == (envHas("pid-file") ? envS("pid-file") : old(opts.PIDFile))
+//@   ensures [env.CPUCap] opts.CPUCap == (envHas("cpu-cap") ? envS("cpu-cap") : old(opts.CPUCap))
+//@   ensures [env.DynWorkers] opts.DynWorkers == (envHas("dynamic-workers") ? envB("dynamic-workers") : old(opts.DynWorkers))
+//@   ensures [env.StatsEnabled] opts.StatsEnabled == (envHas("stats-enabled") ? envB("stats-enabled") : old(opts.StatsEnabled))
+//@   ensures [env.StatsFormat] opts.StatsFormat == (envHas("stats-format") ? envS("stats-format") : old(opts.StatsFormat))
+//@   ensures [env.StatsHTTPAddr] opts.StatsHTTPAddr == (envHas("stats-http-addr") ? envS("stats-http-addr") : old(opts.StatsHTTPAddr))
+//@   ensures [env.StatsHTTPPort] opts.StatsHTTPPort == (envHas("stats-http-port") ? envS("stats-http-port") : old(opts.StatsHTTPPort))
+//@   ensures [env.SFlowEnabled] opts.SFlowEnabled == (envHas("sflow-enabled") ? envB("sflow-enabled") : old(opts.SFlowEnabled))
+//@   ensures [env.SFlowPort] opts.SFlowPort == (envHas("sflow-port") ? envI("sflow-port") : old(opts.SFlowPort))
+//@   ensures [env.SFlowAddr] opts.SFlowAddr == (envHas("sflow-addr") ? envS("sflow-addr") : old(opts.SFlowAddr))
+//@   ensures [env.SFlowUDPSize] opts.SFlowUDPSize == (envHas("sflow-udp-size") ? envI("sflow-udp-size") : old(opts.SFlowUDPSize))
+//@   ensures [env.SFlowWorkers] opts.SFlowWorkers == (envHas("sflow-workers") ? envI("sflow-workers") : old(opts.SFlowWorkers))
+//@   ensures [env.SFlowTopic] opts.SFlowTopic == (envHas("sflow-topic") ? envS("sflow-topic") : old(opts.SFlowTopic))
+//@   ensures [env.SFlowMirrorAddr] opts.SFlowMirrorAddr == (envHas("sflow-mirror-addr") ? envS("sflow-mirror-addr") : old(opts.SFlowMirrorAddr))
+//@   ensures [env.SFlowMirrorPort] opts.SFlowMirrorPort == (envHas("sflow-mirror-port") ? envI("sflow-mirror-port") : old(opts.SFlowMirrorPort))
+//@   ensures [env.SFlowMirrorWorkers] opts.SFlowMirrorWorkers == (envHas("sflow-mirror-workers") ? envI("sflow-mirror-workers") : old(opts.SFlowMirrorWorkers))
+//@   ensures [env.IPFIXEnabled] opts.IPFIXEnabled == (envHas("ipfix-enabled") ? envB("ipfix-enabled") : old(opts.IPFIXEnabled))
+//@   ensures [env.IPFIXRPCEnabled] opts.IPFIXRPCEnabled == (envHas("ipfix-rpc-enabled") ? envB("ipfix-rpc-enabled") : old(opts.IPFIXRPCEnabled))
+//@   ensures [env.IPFIXPort] opts.IPFIXPort == (envHas("ipfix-port") ? envI("ipfix-port") : old(opts.IPFIXPort))
+//@   ensures [env.IPFIXAddr] opts.IPFIXAddr == (envHas("ipfix-addr") ? envS("ipfix-addr") : old(opts.IPFIXAddr))
+//@   ensures [env.IPFIXUDPSize] opts.IPFIXUDPSize == (envHas("ipfix-udp-size") ? envI("ipfix-udp-size") : old(opts.IPFIXUDPSize))
+//@   ensures [env.IPFIXWorkers] opts.IPFIXWorkers == (envHas("ipfix-workers") ? envI("ipfix-workers") : old(opts.IPFIXWorkers))
+//@   ensures [env.IPFIXTopic] opts.IPFIXTopic == (envHas("ipfix-topic") ? envS("ipfix-topic") : old(opts.IPFIXTopic))
+//@   ensures [env.IPFIXMirrorAddr] opts.IPFIXMirrorAddr == (envHas("ipfix-mirror-addr") ? envS("ipfix-mirror-addr") : old(opts.IPFIXMirrorAddr))
+//@   ensures [env.IPFIXMirrorPort] opts.IPFIXMirrorPort == (envHas("ipfix-mirror-port") ? envI("ipfix-mirror-port") : old(opts.IPFIXMirrorPort))
+//@   ensures [env.IPFIXMirrorWorkers] opts.IPFIXMirrorWorkers == (envHas("ipfix-mirror-workers") ? envI("ipfix-mirror-workers") : old(opts.IPFIXMirrorWorkers))
+//@   ensures [env.IPFIXTplCacheFile] opts.IPFIXTplCacheFile == (envHas("ipfix-tpl-cache-file") ? envS("ipfix-tpl-cache-file") : old(opts.IPFIXTplCacheFile))
+//@   ensures [env.NetflowV5Enabled] opts.NetflowV5Enabled == (envHas("netflow5-enabled") ? envB("netflow5-enabled") : old(opts.NetflowV5Enabled))
+//@   ensures [env.NetflowV5Port] opts.NetflowV5Port == (envHas("netflow5-port") ? envI("netflow5-port") : old(opts.NetflowV5Port))
+//@   ensures [env.NetflowV5Addr] opts.NetflowV5Addr == (envHas("netflow5-addr") ? envS("netflow5-addr") : old(opts.NetflowV5Addr))
+//@   ensures [env.NetflowV5UDPSize] opts.NetflowV5UDPSize == (envHas("netflow5-udp-size") ? envI("netflow5-udp-size") : old(opts.NetflowV5UDPSize))
+//@   ensures [env.NetflowV5Workers] opts.NetflowV5Workers == (envHas("netflow5-workers") ? envI("netflow5-workers") : old(opts.NetflowV5Workers))
+//@   ensures [env.NetflowV5Topic] opts.NetflowV5Topic == (envHas("netflow5-topic") ? envS("netflow5-topic") : old(opts.NetflowV5Topic))
+//@   ensures [env.NetflowV9Enabled] opts.NetflowV9Enabled == (envHas("netflow9-enabled") ? envB("netflow9-enabled") : old(opts.NetflowV9Enabled))
+//@   ensures [env.NetflowV9Port] opts.NetflowV9Port == (envHas("netflow9-port") ? envI("netflow9-port") : old(opts.NetflowV9Port))
+//@   ensures [env.NetflowV9Addr] opts.NetflowV9Addr == (envHas("netflow9-addr") ? envS("netflow9-addr") : old(opts.NetflowV9Addr))
+//@   ensures [env.NetflowV9UDPSize] opts.NetflowV9UDPSize == (envHas("netflow9-udp-size") ? envI("netflow9-udp-size") : old(opts.NetflowV9UDPSize))
+//@   ensures [env.NetflowV9Workers] opts.NetflowV9Workers == (envHas("netflow9-workers") ? envI("netflow9-workers") : old(opts.NetflowV9Workers))
+//@   ensures [env.NetflowV9Topic] opts.NetflowV9Topic == (envHas("netflow9-topic") ? envS("netflow9-topic") : old(opts.NetflowV9Topic))
+//@   ensures [env.NetflowV9TplCacheFile] opts.NetflowV9TplCacheFile == (envHas("netflow9-tpl-cache-file") ? envS("netflow9-tpl-cache-file") : old(opts.NetflowV9TplCacheFile))
+//@   ensures [env.ProducerEnabled] opts.ProducerEnabled == (envHas("producer-enabled") ? envB("producer-enabled") : old(opts.ProducerEnabled))
+//@   ensures [env.MQName] opts.MQName == (envHas("mq-name") ? envS("mq-name") : old(opts.MQName))
+//@   ensures [env.MQConfigFile] opts.MQConfigFile == (envHas("mq-config-file") ? envS("mq-config-file") : old(opts.MQConfigFile))
 //@   modifies opts
 
 // loadCfg: a key present in the configuration file replaces the current value, every other setting keeps its value
